@@ -198,7 +198,7 @@ theorem text_prefix_len {s s' : List Nat} {m : Marks} {L O : List Node} {p : Nat
   rw [h3] at h4
   simp at h4
 
-theorem take_split {α} {X Y X' Y' : List α} {p : Nat} (hl : X.length = X'.length) (hp : X.length ≤ p)
+theorem take_append_split {α} {X Y X' Y' : List α} {p : Nat} (hl : X.length = X'.length) (hp : X.length ≤ p)
     (h : (X ++ Y).take p = (X' ++ Y').take p) : X = X' ∧ Y.take (p - X.length) = Y'.take (p - X.length) := by
   rw [take_app_ge _ _ _ hp, take_app_ge _ _ _ (by omega), ← hl] at h
   exact List.append_inj h hl
@@ -233,7 +233,7 @@ theorem leftRel_of_toks : ∀ (L' O : List Node) (p : Nat), fnorm L' = true → 
       simp only [fsize_cons] at hp' hp
       rw [alignedAt_skip _ _ _ hle] at ha
       rw [ftoks_cons, ftoks_cons] at h
-      have := (take_split rfl (by rw [Node.toks_length]; exact hle) h).2
+      have := (take_append_split rfl (by rw [Node.toks_length]; exact hle) h).2
       rw [Node.toks_length] at this
       exact .skip h0 hle (leftRel_of_toks L' O _ hnL' hnO (by omega) (by omega) ha this)
     cases n' with
@@ -258,7 +258,7 @@ theorem leftRel_of_toks : ∀ (L' O : List Node) (p : Nat), fnorm L' = true → 
             · exact text_prefix_len hn' h.symm (by omega) hlt
             · exact text_prefix_len hn h (by omega) hlt
           rw [ftoks_cons, ftoks_cons, Node.toks_text, Node.toks_text] at h
-          have hsp := take_split (by simp only [List.length_map]; exact hlen)
+          have hsp := take_append_split (by simp only [List.length_map]; exact hlen)
             (by simp only [List.length_map]; omega) h
           have hss : c' :: s'' = c :: s0 := by
             have := hsp.1
@@ -343,7 +343,7 @@ theorem leftRel_of_toks : ∀ (L' O : List Node) (p : Nat), fnorm L' = true → 
             simp only [ftoks_cons, Node.toks_elem, List.cons_append, List.take_succ_cons,
               List.append_assoc, h]
           rw [ftoks_cons, ftoks_cons] at h'
-          have h2 := (take_split rfl (by rw [Node.toks_length]; simp; omega) h').2
+          have h2 := (take_append_split rfl (by rw [Node.toks_length]; simp; omega) h').2
           rw [Node.toks_length] at h2
           rw [alignedAt_skip _ _ _ (by simp; omega)] at ha
           exact .skip h0 (by simp; omega)
